@@ -159,6 +159,54 @@ def twin_ops_pass(ctx):
                 return
 
 
+def below_static_pass(ctx):
+    """a dynamic class whose supertype is a statically defined class (given to the constructor or appended afterwards):
+    an operation added to it gives its instances the method, next to the methods inherited from the static class"""
+    E = _ecore()
+    import types as _t
+    for k in range(8 if ctx.quick() else 60):
+        rng = common.sub_rng(ctx.seed, 'C20', 'below-static', k)
+        src = ('from pyecore.ecore import *\n' + ('@EMetaclass\nclass S(object):\n' if k % 2 else 'class S(EObject, metaclass=MetaEClass):\n') +
+               '    x = EAttribute(eType=EString)\n    def hello(self, a, b=1):\n        return a\n')
+        mod = _t.ModuleType(f'c20_below_{k}')
+        sys.modules[mod.__name__] = mod
+        try:
+            exec(compile(src, mod.__name__, 'exec'), mod.__dict__)
+        finally:
+            sys.modules.pop(mod.__name__, None)
+        how = rng.choice(['constructor', 'append'])
+        if how == 'constructor':
+            D = E.EClass('D', superclass=(mod.S.eClass,))
+        else:
+            D = E.EClass('D')
+            D.eSuperTypes.append(mod.S.eClass)
+        nreq = rng.randint(0, 2)
+        D.eOperations.append(E.EOperation('run', params=[E.EParameter(f'a{i}', E.EInt, required=True) for i in range(nreq)] +
+                                          [E.EParameter('opt', E.EString, required=False)]))
+        ctx.evaluations += 1
+        ctx.count('below-static/' + how)
+        ctx.nontriv(('below-static', k))
+        d = D()
+        problem = None
+        if not hasattr(d, 'run'):
+            problem = 'instances have no method `run`'
+        else:
+            try:
+                d.run(*([1] * nreq))
+                problem = 'the call did not raise NotImplementedError'
+            except NotImplementedError:
+                pass
+            except Exception as e:
+                problem = f'the call raised {type(e).__name__}'
+            if not problem and d.hello(5) != 5:
+                problem = 'the inherited static method is gone'
+        if problem:
+            ctx.violate({'clause': 'method-presence', 'below_static': True},
+                        f'method-presence: dynamic class D with a static supertype ({how}), operation run added: {problem}',
+                        {'below_static': k, 'how': how})
+            return
+
+
 def _ecore():
     from pyecore import ecore as E
     return E
@@ -499,7 +547,7 @@ def static_case(ctx, h, lines, reals):
         nm = f'm{i}'
         if kind == 'function':
             if rng.random() < .15:
-                nm = rng.choice(['class_', '_under', 'if_'])  + str(i)
+                nm = rng.choice(['class_', '_under', 'if_', 'xml__to__json', 'load__', 'py__name'])  + str(i)
             # what a Python signature may carry beyond its positional parameters: *rest, keyword-only ones (with and
             # without default), **opts — none of them is a positional parameter, none is required of a caller by position
             tail = ''
@@ -602,6 +650,7 @@ def run(ctx):
     override_pass(ctx)
     static_pass(ctx)
     twin_ops_pass(ctx)
+    below_static_pass(ctx)
 
 
 def search(ctx):
